@@ -99,6 +99,9 @@ def run(ctx):
                 "(2) end to end through the REAL SummaryMarshaler and the REAL engine Mux (httptest, scenario fixture ValidTestScenario.toml, 13 actions): "
                 "summaries with real values/encodings of random action sets (steered towards d+Ed+, F, all-decimal encodings), the single-objective "
                 "shape (As-Is + Optimised), one summary per encoding class, synthetic rows with arbitrary text over [0-9A-F:] in the Actions column, "
+                "summary FILES written by the real scenario.Saver driven as the Runner drives it (ONE saver, SetDecompressionModel once, one "
+                "FinishedAnnealing event per run with CompressedModel (Kirkpatrick family) or ModelArchive (Suppapitnarm family), RunNumber 1..3, "
+                "CSV/Summary into a private temp dir): every file of every run posted to a fresh engine, "
                 "the former D9 / stale-pool refutation witnesses as positive regression cases (1E3, F, 1E0, 1000000, 9E9, 0012; summaries re-posted "
                 "on one engine with re-used labels after every label had been fetched), "
                 "and malformed relatives (wrong as-is values, first row not As-Is, non-hex encoding, boolean note, duplicate labels, a variable "
